@@ -64,7 +64,7 @@ func (ft *funcTrans) call(in ssa.CallInstruction, val *ssa.Call) {
 			o := ft.obligation("cover", fmt.Sprintf("cover%d", ft.nAsserts), "vCover at "+posStr(ft.p.SSA.Fset, in.Pos()), arg.S)
 			o.Cover = true
 			// covers are not assumed afterwards
-			w.facts = w.facts[:len(w.facts)-1]
+			w.popFact()
 		}
 		return
 	}
@@ -142,7 +142,7 @@ func (ft *funcTrans) call(in ssa.CallInstruction, val *ssa.Call) {
 		ai++
 	}
 	pre := st.clone()
-	ecPre := &evalCtx{w: w, pkg: pkg, env: env, st: pre, old: nil}
+	ecPre := &evalCtx{w: w, pkg: pkg, env: env, st: pre, old: pre, lets: c.Lets}
 	for i, r := range c.Requires {
 		t := ecPre.evalBool(r.E)
 		o := ft.obligation("requires", fmt.Sprintf("call%d.%s.requires%d", ft.nCalls, shortName(name), i+1), r.Src, t.S)
@@ -199,7 +199,7 @@ func (ft *funcTrans) call(in ssa.CallInstruction, val *ssa.Call) {
 			}
 		}
 	}
-	ecPost := &evalCtx{w: w, pkg: pkg, env: envPost, st: st, old: pre}
+	ecPost := &evalCtx{w: w, pkg: pkg, env: envPost, st: st, old: pre, lets: c.Lets}
 	for _, e := range c.Ensures {
 		t := ecPost.evalBool(e.E)
 		ft.assume(t.S)
@@ -353,7 +353,7 @@ func (ft *funcTrans) havocDesignator(ecPre *evalCtx, e Expr, st, pre *State) {
 		nw := ft.newHeapVersion(st, h)
 		es := w.sortOf(base.Sort.Go.Underlying().(*types.Slice).Elem())
 		fv := w.declConstRaw(w.fresh("hv"), es.Name)
-		w.addFact(fmt.Sprintf("(= %s (store %s (s-arr %s) (store (select %s (s-arr %s)) %s %s)))", nw, old, base.S, old, base.S, w.iadd("(s-off "+base.S+")", idx), fv))
+		w.addFact(fmt.Sprintf("(= %s (store %s (s-arr %s) (store (select %s (s-arr %s)) %s %s)))", nw, old, base.S, old, base.S, w.sidx("(s-off "+base.S+")", idx), fv))
 	default:
 		ft.newHeapVersion(st, h)
 	}
@@ -515,13 +515,13 @@ func (ft *funcTrans) ret(x *ssa.Return) {
 			env[n] = t
 		}
 	}
-	ec := &evalCtx{w: w, pkg: ft.pkgTypes(), env: env, st: st, old: ft.entry}
+	ec := &evalCtx{w: w, pkg: ft.pkgTypes(), env: env, st: st, old: ft.entry, lets: ft.lets()}
 	where := posStr(ft.p.SSA.Fset, x.Pos())
 	{
 		o := ft.obligation("cover", fmt.Sprintf("reach-return@b%d", ft.cur.Index), "return is reachable", "true")
 		o.Cover = true
 		o.Where = where
-		w.facts = w.facts[:len(w.facts)-1]
+		w.popFact()
 	}
 	for i, e := range ft.c.Ensures {
 		t := ec.evalBool(e.E)
@@ -535,15 +535,23 @@ func (ft *funcTrans) ret(x *ssa.Return) {
 
 // frame obligations: every heap changed on this path differs from its entry
 // version only at locations permitted by the assigns clause or freshly allocated.
-func (ft *funcTrans) frame(st *State, where string) {
-	w := ft.w
-	ecPre := &evalCtx{w: w, pkg: ft.pkgTypes(), env: ft.env, st: ft.entry, old: nil}
-	type allow struct {
-		ref string
-		idx string // "" = whole
+type frameAllow struct {
+	ref string
+	idx string // "" = whole
+}
+
+type frameSpec struct {
+	allowed map[string][]frameAllow
+	whole   map[string]bool
+}
+
+func (ft *funcTrans) frameSpecOf() *frameSpec {
+	if ft.fspec != nil {
+		return ft.fspec
 	}
-	allowed := map[string][]allow{}
-	whole := map[string]bool{}
+	w := ft.w
+	ecPre := &evalCtx{w: w, pkg: ft.pkgTypes(), env: ft.env, st: ft.entry, old: ft.entry, lets: ft.lets()}
+	fs := &frameSpec{allowed: map[string][]frameAllow{}, whole: map[string]bool{}}
 	for _, a := range ft.c.Assigns {
 		hs := ft.desigHeaps(ecPre, a.E)
 		h := hs[0]
@@ -556,66 +564,80 @@ func (ft *funcTrans) frame(st *State, where string) {
 				}
 			}
 			if isTypeLevel {
-				whole[h] = true
+				fs.whole[h] = true
 			} else {
-				allowed[h] = append(allowed[h], allow{ref: ecPre.eval(x.X).S})
+				fs.allowed[h] = append(fs.allowed[h], frameAllow{ref: ecPre.eval(x.X).S})
 			}
 		case *ESliceAll:
-			allowed[h] = append(allowed[h], allow{ref: "(s-arr " + ecPre.eval(x.X).S + ")"})
+			fs.allowed[h] = append(fs.allowed[h], frameAllow{ref: "(s-arr " + ecPre.eval(x.X).S + ")"})
 		case *EIndex:
 			b := ecPre.eval(x.X)
 			idx := w.toIdx(ecPre.concrete(ecPre.eval(x.I)))
-			allowed[h] = append(allowed[h], allow{ref: "(s-arr " + b.S + ")", idx: w.iadd("(s-off "+b.S+")", idx)})
+			fs.allowed[h] = append(fs.allowed[h], frameAllow{ref: "(s-arr " + b.S + ")", idx: w.sidx("(s-off "+b.S+")", idx)})
 		default:
-			whole[h] = true
+			fs.whole[h] = true
 		}
 	}
+	ft.fspec = fs
+	return fs
+}
+
+// frameGoal returns the formula "heap h in state st agrees with the entry
+// state outside the assigns clause and outside fresh memory", or "" if
+// nothing needs to be shown.
+func (ft *funcTrans) frameGoal(st *State, h string) string {
+	w := ft.w
+	fs := ft.frameSpecOf()
+	if fs.whole[h] {
+		return ""
+	}
+	cur := w.heapSym(st, h)
+	ent := w.heapSym(ft.entry, h)
+	if cur == ent {
+		return ""
+	}
+	if strings.HasPrefix(h, "G_") {
+		return fmt.Sprintf("(= %s %s)", cur, ent)
+	}
+	if strings.HasPrefix(h, "E_") {
+		var ex []string
+		for _, a := range fs.allowed[h] {
+			if a.idx == "" {
+				ex = append(ex, fmt.Sprintf("(= r!f %s)", a.ref))
+			} else {
+				ex = append(ex, fmt.Sprintf("(and (= r!f %s) (= j!f %s))", a.ref, a.idx))
+			}
+		}
+		exc := "false"
+		if len(ex) > 0 {
+			exc = "(or " + strings.Join(ex, " ") + ")"
+		}
+		return fmt.Sprintf("(forall ((r!f Int) (j!f %s)) (! (=> (and (< 0 r!f) (<= r!f %s) (not %s)) (= (select (select %s r!f) j!f) (select (select %s r!f) j!f))) :pattern ((select (select %s r!f) j!f))))",
+			w.idxSortName(), ft.entry.alloc, exc, cur, ent, cur)
+	}
+	var ex []string
+	for _, a := range fs.allowed[h] {
+		ex = append(ex, fmt.Sprintf("(= r!f %s)", a.ref))
+	}
+	exc := "false"
+	if len(ex) > 0 {
+		exc = "(or " + strings.Join(ex, " ") + ")"
+	}
+	return fmt.Sprintf("(forall ((r!f Int)) (! (=> (and (< 0 r!f) (<= r!f %s) (not %s)) (= (select %s r!f) (select %s r!f))) :pattern ((select %s r!f))))",
+		ft.entry.alloc, exc, cur, ent, cur)
+}
+
+func (ft *funcTrans) frame(st *State, where string) {
 	var names []string
 	for h := range st.heaps {
 		names = append(names, h)
 	}
 	sortStrings(names)
 	for _, h := range names {
-		if whole[h] {
+		goal := ft.frameGoal(st, h)
+		if goal == "" {
 			continue
 		}
-		cur := st.heaps[h]
-		ent := w.heapSym(ft.entry, h)
-		if cur == ent {
-			continue
-		}
-		srt := w.heapSorts[h]
-		var goal string
-		if strings.HasPrefix(h, "G_") {
-			goal = fmt.Sprintf("(= %s %s)", cur, ent)
-		} else if strings.HasPrefix(h, "E_") {
-			var ex []string
-			for _, a := range allowed[h] {
-				if a.idx == "" {
-					ex = append(ex, fmt.Sprintf("(= r!f %s)", a.ref))
-				} else {
-					ex = append(ex, fmt.Sprintf("(and (= r!f %s) (= j!f %s))", a.ref, a.idx))
-				}
-			}
-			exc := "false"
-			if len(ex) > 0 {
-				exc = "(or " + strings.Join(ex, " ") + ")"
-			}
-			goal = fmt.Sprintf("(forall ((r!f Int) (j!f %s)) (=> (and (< 0 r!f) (<= r!f %s) (not %s)) (= (select (select %s r!f) j!f) (select (select %s r!f) j!f))))",
-				w.idxSortName(), ft.entry.alloc, exc, cur, ent)
-		} else {
-			var ex []string
-			for _, a := range allowed[h] {
-				ex = append(ex, fmt.Sprintf("(= r!f %s)", a.ref))
-			}
-			exc := "false"
-			if len(ex) > 0 {
-				exc = "(or " + strings.Join(ex, " ") + ")"
-			}
-			goal = fmt.Sprintf("(forall ((r!f Int)) (=> (and (< 0 r!f) (<= r!f %s) (not %s)) (= (select %s r!f) (select %s r!f))))",
-				ft.entry.alloc, exc, cur, ent)
-		}
-		_ = srt
 		o := ft.obligation("frame", fmt.Sprintf("frame.%s@b%d", h, ft.cur.Index), "assigns clause covers writes to "+h, goal)
 		o.Where = where
 	}
